@@ -5386,6 +5386,9 @@ class TensorDictBase(MutableMapping):
                 if k[-1].startswith("<NJT>"):
                     njts[k] = v
                     return
+                if not v.is_contiguous() or (v.stride() and v.stride()[-1] != 1):
+                    # same as the single-threaded branch: the bytes of a strided leaf need a copy
+                    v = v.clone(memory_format=torch.contiguous_format)
                 v_pad = v.view(-1).view(torch.uint8)
                 exp_length = stop - start
                 pad = exp_length - v_pad.numel()
